@@ -94,13 +94,15 @@ pub fn expect_piece(s: usize, pos: &mut usize, piece: &[u8]) -> bool {
     *pos += 1;
     true
 }
-pub fn streams_equal(a: &([u8; CAP], usize), b: &([u8; CAP], usize)) -> bool {
-    if a.1 != b.1 {
+/// finished streams `a` and `b` carry the same bytes
+pub fn streams_equal(a: usize, b: usize) -> bool {
+    let r = st();
+    if r.len[a] != r.len[b] {
         return false;
     }
     let mut i = 0;
-    while i < a.1 {
-        if a.0[i] != b.0[i] {
+    while i < r.len[a] {
+        if r.buf[a * CAP + i] != r.buf[b * CAP + i] {
             return false;
         }
         i += 1;
